@@ -2,6 +2,7 @@
 from common import C, short, local_refs
 from cfg import path_leaf
 import shared
+from facts import AnalysisBroken
 
 EXPLANATION = (
     "For every interactor (function returning celeritas::Interaction that calls the secondary "
@@ -16,7 +17,7 @@ NOT_DECIDED = ("energy/momentum conservation of the sampled kinematics, unit vec
 MODELS = ["KleinNishina", "LivermorePE", "BetheHeitler", "EPlusGG", "MollerBhabha", "SeltzerBerger",
           "RelativisticBrem", "CombinedBrem", "MuBremsstrahlung", "BetheBloch", "Rayleigh",
           "CoulombScattering", "MuBetheBloch", "Bragg", "ICRU73QO"]
-TECHNIQUE = ('null-pointer discipline (test, failure edge must-return, use dominated by non-null edge) on the CFG of every interactor; booking-dominates-reset rule')
+TECHNIQUE = ('null-pointer discipline (test, failure edge must-return, use dominated by non-null edge) on the CFG of every interactor; booking-dominates-reset rule; reachability between bookings of the deposition (single booking per path); argument audit of every momentum-conservation helper call site; cut/particle pairing by guard provenance')
 
 UNITS = ["src/celeritas/em/model/%sModel.cc" % m for m in MODELS] + [
     "src/celeritas/neutron/model/ChipsNeutronElasticModel.cc"]
@@ -112,6 +113,8 @@ def run(db, cx):
 
     threshold_pairing(db, cx)
     shell_threshold(db, cx)
+    single_booking(db, cx)
+    momentum_closure(db, cx)
 
 
 def threshold_pairing(db, cx):
@@ -247,3 +250,111 @@ def shell_threshold(db, cx):
                       "photoelectron a negative kinetic energy (and a deposit larger than the "
                       "incident energy)")
     cx.floor("tabulated subshell accumulations in sample_subshell", n, 1)
+
+
+
+def single_booking(db, cx):
+    """C04.7-deposition-single-booking: `Interaction::energy_deposition` is the only place where
+    an interactor books energy that neither the outgoing particle nor a secondary carries.  A
+    plain assignment that can execute after another booking on the same path overwrites it, and
+    that energy is lost (two cut-off branches that each look right alone).  Later bookings must
+    accumulate (`+=`)."""
+    EDEP = C + "Interaction::energy_deposition"
+    n = 0
+    seen = set()
+    for nm in db.find(r"^celeritas::.*(Interactor|Interaction|Relaxation).*"):
+        for f in db.get(nm):
+            ws = [(b, i, ev) for (b, i, ev) in f.events("write") if path_leaf(ev.get("path")) == EDEP]
+            if not ws or f.loc in seen:
+                continue
+            seen.add(f.loc)
+            for (b2, i2, w2) in ws:
+                if w2.get("op") != "=":
+                    continue
+                if "F:" + EDEP in w2.get("refs", []):
+                    continue       # x = x + ...: accumulating form
+                over = []
+                for (b1, i1, w1) in ws:
+                    if w1 is w2:
+                        continue
+                    if w1.get("path", {}).get("root") != w2.get("path", {}).get("root"):
+                        continue
+                    rhs1 = (w1.get("rhs") or "").strip()
+                    if w1.get("lit") in ("0", "0.0") or "zero_quantity" in rhs1 or rhs1 in ("{}", "0"):
+                        continue
+                    after = (b1 == b2 and i2 > i1) or \
+                        (b2 in f.reach([x for x in f.succ(b1) if x is not None]))
+                    if after:
+                        over.append(short(w1["loc"]))
+                n += 1
+                cx.ob("C04.7-deposition-single-booking", "%s: the assignment of energy_deposition at %s does not "
+                      "overwrite an earlier booking" % (nm.split("::")[-2], short(w2["loc"]).split(":", 1)[1]),
+                      not over, "can follow the booking at %s" % ", ".join(over) if over else
+                      "= %s" % (w2.get("rhs") or "")[:60], short(w2["loc"]),
+                      why="energy booked by the earlier branch is neither deposited nor carried by any "
+                          "particle once the field is overwritten")
+    cx.floor("plain assignments of Interaction::energy_deposition", n, 5)
+
+
+def _brace_items(t):
+    """top-level items of a brace initialiser `{a, b}`"""
+    t = (t or "").strip()
+    if not (t.startswith("{") and t.endswith("}")):
+        return None
+    t, out, depth, cur = t[1:-1], [], 0, ""
+    for ch in t.replace("->", "."):
+        if ch in "([{":
+            depth += 1
+        elif ch in ")]}":
+            depth -= 1
+        if ch == "," and depth == 0:
+            out.append(cur.strip())
+            cur = ""
+        else:
+            cur += ch
+    out.append(cur.strip())
+    return [x.replace("this.", "").replace("this->", "").replace(" ", "") for x in out]
+
+
+def momentum_closure(db, cx):
+    """C04.8-momentum-closure: calc_exiting_direction(p_in, p_out) gives the direction of
+    p_in - p_out, the one product whose direction is *not* sampled.  The rule instances are the
+    call sites.  For the result to close the momentum balance the subtracted momentum must be
+    that of another product: its direction is a product's (sampled) direction - not the incident
+    direction again, which makes the result +-incident whatever was sampled - and it is not the
+    very direction being assigned."""
+    CED = C + "calc_exiting_direction"
+    sites = list(db.callers_of(CED))
+    cx.floor("calc_exiting_direction call sites", len(set(ev["loc"] for _f, ev in sites)), 4)
+    seen = set()
+    for f, ev in sites:
+        if ev["loc"] in seen:
+            continue
+        seen.add(ev["loc"])
+        a = ev.get("args", [])
+        if len(a) != 2:
+            continue
+        p_in, p_out = _brace_items(a[0].get("t")), _brace_items(a[1].get("t"))
+        who = f.name.split("::")[-2]
+        if not p_in or not p_out or len(p_in) != 2 or len(p_out) != 2:
+            raise AnalysisBroken("C04.8: momentum arguments of calc_exiting_direction at %s are not "
+                                 "{magnitude, direction} initialisers" % short(ev["loc"]))
+        # the write that receives the result
+        pos = next(((b, i) for (b, i, e2) in f.events("call") if e2 is ev), None)
+        lhs = None
+        if pos:
+            for e2 in f.blocks[pos[0]]["ev"][pos[1] + 1:pos[1] + 4]:
+                if e2["e"] in ("write", "def") and CED in e2.get("calls", []):
+                    lhs = (e2.get("lhs") or e2.get("var") or "").replace("this->", "").replace(" ", "")
+                    break
+        same_dir = p_in[1] == p_out[1]
+        self_ref = lhs is not None and p_out[1] == lhs
+        cx.ob("C04.8-momentum-closure", "%s: %s = direction of (p_in - p_out) subtracts another product's "
+              "momentum" % (who, lhs or "result@" + short(ev["loc"]).split(":", 1)[1]),
+              not same_dir and not self_ref,
+              "p_in = {%s}, p_out = {%s}%s" % (", ".join(p_in), ", ".join(p_out),
+                                             "; both along the same direction: the result is +-%s whatever "
+                                             "the other product's sampled direction" % p_in[1] if same_dir else ""),
+              short(ev["loc"]),
+              why="with all products returned, the unsampled product must carry p_in minus the "
+                  "sampled product's momentum; otherwise momentum is not conserved")
